@@ -210,7 +210,7 @@ def signature(f, impl, model):
     return "C12:%s:%s" % (kind, "+".join(sorted(feats)) or "presence")
 
 
-def run_queries(chk, n_books, n_queries):
+def run_queries(chk, n_books, n_queries, cards=None, queries=None):
     for b in range(n_books):
         fe = "wsgi" if b % 2 == 0 else "aiohttp"
         prefix = chk.rng.choice(["/", "/dav/"])
@@ -219,8 +219,8 @@ def run_queries(chk, n_books, n_queries):
         try:
             base = prefix.rstrip("/") + BOOK + "/"
             members = []
-            for i in range(chk.rng.randint(2, 5)):
-                data, struct = gen_card(chk.rng, i)
+            for i in range(len(cards) if cards else chk.rng.randint(2, 5)):
+                data, struct = cards[i] if cards else gen_card(chk.rng, i)
                 name = "c%d.vcf" % i
                 r = srv.request("PUT", base + name, {"Content-Type": "text/vcard"}, data)
                 if r.status not in (201, 204):
@@ -231,8 +231,8 @@ def run_queries(chk, n_books, n_queries):
                 members.append((name, lib, data))
             members.sort(key=lambda m: m[0].encode())
             lines = ["cnew"] + [card_line(n, s) for n, s, _ in members]
-            qs = [gen_filter(chk.rng) for _ in range(n_queries)]
-            for _ in range(max(4, n_queries // 4)):
+            qs = list(queries) if queries else [gen_filter(chk.rng) for _ in range(n_queries)]
+            for _ in range(0 if queries else max(4, n_queries // 4)):
                 cf = gen_cross_instance_filter(chk.rng, members)
                 if cf:
                     qs.append(cf)
@@ -287,6 +287,28 @@ def run_queries(chk, n_books, n_queries):
             shutil.rmtree(scratch, ignore_errors=True)
 
 
+def fixed_card(i, fn):
+    lines = ["BEGIN:VCARD", "VERSION:3.0", "FN:" + fn, "N:" + fn + ";;;;", "UID:fixed-%d" % i, "END:VCARD"]
+    return ("\r\n".join(lines) + "\r\n").encode("utf-8"), [("fn", fn, {})]
+
+
+def unicode_book(chk):
+    """a fixed address book: one name in decomposed (NFD) and one in composed (NFC) form, names that
+    differ by a blank; every pattern x match type x collation x negation"""
+    fns = ["Zoe\u0308 Mu\u0308ller", "Zoë Müller", "Ann Lee", "Annabel Leeds", "Joann Aleem", "Bruce McLee"]
+    cards = [fixed_card(i, fn) for i, fn in enumerate(fns)]
+    texts = ["Zoe\u0308", "Zoë", "Mu\u0308ller", "Müller", "Ann ", " Lee", " ", "Lee", "ann lee "]
+    qs = []
+    for t in texts:
+        for mt in ("equals", "contains", "starts-with", "ends-with"):
+            for coll in ("i;ascii-casemap", "i;octet", "i;unicode-casemap"):
+                for neg in (False, True):
+                    qs.append({"test": "anyof", "limit": None, "props": [
+                        {"name": "FN", "test": "anyof", "nd": False,
+                         "children": [{"tm": {"collation": coll, "negate": neg, "mtype": mt, "text": t}}]}]})
+    run_queries(chk, 2, 0, cards=cards, queries=qs)
+
+
 def match_grid(chk):
     """Exhaustive: every match type x collation x negate over a string grid, real code vs model."""
     from xandikos import collation
@@ -329,6 +351,7 @@ def run(chk):
     match_grid(chk)
     quick = chk.tier == "quick"
     run_queries(chk, 6 if quick else 60, 25 if quick else 60)
+    unicode_book(chk)
 
 
 def replay(chk, path):
